@@ -387,7 +387,7 @@ def r5_mirror(ctx):
     for name in MIRROR_FNS:
         f = prog.fns.get(BB + name)
         if f is None:
-            ctx.lost(rid, BB + name)
+            ctx.lost(rid, BB + name, missing=True)
             continue
         for i, (w, b, line) in enumerate(mirror_pairs(ctx, f)):
             w2, b2 = resolve_promoted(prog, w), resolve_promoted(prog, b)
